@@ -261,4 +261,10 @@ def Api.process (num : Num) (fuel : Nat) (a : Api) (hasIn flushReq useIdone : Bo
   | none => none
   | some (a2, odone, rest, reqs) => some (a2, idone, odone, rest, reqs)
 
+/-- `soxr_process(p, NULL, 0, idone, NULL, 0, odone)`: with neither an input nor an output buffer the call only latches
+    end-of-input on the API object and tells the engine (the `!out && !in` shortcut; since the F38 repair in /repo it calls
+    `resampler_flush`, so that `soxr_delay` is the number of frames still to come from then on); `idone = odone = 0`. -/
+def Api.signalEnd (num : Num) (a : Api) : Api :=
+  { a with flushing := true, eng := if a.error then a.eng else a.eng.flush num.owed }
+
 end Soxr.Cr
